@@ -645,3 +645,84 @@ Proof.
   pose proof (visit_seq_sub (NodeWf L) d t Hwf) as Hall. rewrite Forall_forall in Hall.
   apply (name_range_inside L n (Hall n Hn)). intro E. rewrite E in Hsn. destruct Hsn.
 Qed.
+
+(* ====================================================================================== *)
+(* the regular shape is decidable (greedy split); used for the non-vacuity examples and   *)
+(* by the correspondence check to count the regular documents among its cases            *)
+(* ====================================================================================== *)
+
+Definition silentb (n : node) : bool := match dkind_of n with None => true | Some _ => false end.
+Definition quietb (c : node) : bool := forallb silentb (below c).
+Definition pre_okb (c : node) : bool := silentb c && quietb c.
+Definition mid_okb (c : node) : bool :=
+  (silentb c || is_uses c || (is_member c && negb (is_method c))) && quietb c.
+Definition vosb (n : node) : bool := silentb n || var_like n.
+Definition rest_okb (c : node) : bool := (silentb c && quietb c) || (is_method c && forallb vosb (below c)).
+
+Fixpoint span {A} (f : A -> bool) (l : list A) : list A * list A :=
+  match l with
+  | [] => ([], [])
+  | x :: r => if f x then let (a, b) := span f r in (x :: a, b) else ([], l)
+  end.
+
+Definition regularb (t : node) : bool :=
+  silentb t &&
+  match span pre_okb (nchildren t) with
+  | (_, []) => false
+  | (_, h :: r) => is_header h && quietb h && forallb rest_okb (snd (span mid_okb r))
+  end.
+
+Lemma span_app {A} (f : A -> bool) l : fst (span f l) ++ snd (span f l) = l.
+Proof.
+  induction l as [|x r IH]; [reflexivity|]. cbn [span]. destruct (f x); [|reflexivity].
+  destruct (span f r) as [a b]. cbn [fst snd app] in *. rewrite IH. reflexivity.
+Qed.
+
+Lemma span_fst {A} (f : A -> bool) l : Forall (fun x => f x = true) (fst (span f l)).
+Proof.
+  induction l as [|x r IH]; [constructor|]. cbn [span]. destruct (f x) eqn:E; [|constructor].
+  destruct (span f r) as [a b]. cbn [fst] in *. constructor; assumption.
+Qed.
+
+Lemma silentb_ok n : silentb n = true -> silent n.
+Proof. unfold silentb, silent. destruct (dkind_of n); [discriminate|reflexivity]. Qed.
+
+Lemma quietb_ok c : quietb c = true -> quiet c.
+Proof.
+  unfold quietb, quiet. intro H. rewrite forallb_forall in H. apply Forall_forall. intros x Hx. apply silentb_ok, H, Hx.
+Qed.
+
+Lemma pre_okb_ok c : pre_okb c = true -> pre_ok c.
+Proof. unfold pre_okb, pre_ok. intro H. apply andb_true_iff in H. destruct H. split; [apply silentb_ok|apply quietb_ok]; assumption. Qed.
+
+Lemma mid_okb_ok c : mid_okb c = true -> mid_ok c.
+Proof.
+  unfold mid_okb, mid_ok. intro H. apply andb_true_iff in H. destruct H as [H1 H2]. split; [|apply quietb_ok; exact H2].
+  apply orb_true_iff in H1. destruct H1 as [H1|H1]; [apply orb_true_iff in H1; destruct H1 as [H1|H1]|].
+  - left. apply silentb_ok. exact H1.
+  - right. left. exact H1.
+  - right. right. apply andb_true_iff in H1. destruct H1 as [A B]. apply negb_true_iff in B. auto.
+Qed.
+
+Lemma rest_okb_ok c : rest_okb c = true -> rest_ok c.
+Proof.
+  unfold rest_okb, rest_ok. intro H. apply orb_true_iff in H. destruct H as [H|H]; apply andb_true_iff in H; destruct H as [A B].
+  - left. split; [apply silentb_ok|apply quietb_ok]; assumption.
+  - right. split; [exact A|]. rewrite forallb_forall in B. apply Forall_forall. intros x Hx. specialize (B x Hx).
+    unfold vosb in B. apply orb_true_iff in B. destruct B as [B|B]; [left; apply silentb_ok; exact B|right; exact B].
+Qed.
+
+Theorem regularb_ok t : regularb t = true -> regular t.
+Proof.
+  unfold regularb. intro H. apply andb_true_iff in H. destruct H as [Hs H]. split; [apply silentb_ok; exact Hs|].
+  pose proof (span_app pre_okb (nchildren t)) as Happ. pose proof (span_fst pre_okb (nchildren t)) as Hpre.
+  destruct (span pre_okb (nchildren t)) as [pre [|h r]]; [discriminate|]. cbn [fst snd] in *.
+  apply andb_true_iff in H. destruct H as [H Hrest]. apply andb_true_iff in H. destruct H as [Hh Hq].
+  pose proof (span_app mid_okb r) as Happ2. pose proof (span_fst mid_okb r) as Hmid.
+  destruct (span mid_okb r) as [mid rest]. cbn [fst snd] in *.
+  exists pre, h, mid, rest. split; [rewrite Happ2; symmetry; exact Happ|].
+  split; [eapply Forall_impl; [|exact Hpre]; intros a Ha; apply pre_okb_ok; exact Ha|].
+  split; [exact Hh|]. split; [apply quietb_ok; exact Hq|].
+  split; [eapply Forall_impl; [|exact Hmid]; intros a Ha; apply mid_okb_ok; exact Ha|].
+  rewrite forallb_forall in Hrest. apply Forall_forall. intros x Hx. apply rest_okb_ok, Hrest, Hx.
+Qed.
